@@ -16,7 +16,7 @@ import sys
 import threading
 
 VERIF = os.path.dirname(os.path.dirname(os.path.abspath(__file__)))
-ROOT = "/tmp/sw"
+ROOT = os.environ.get("PSWEEP_ROOT") or "/tmp/sw"
 ALL_PROPS = ["C%02d" % i for i in range(1, 21)]
 
 
